@@ -70,10 +70,16 @@ def run(chk: Check) -> None:
         "defined); flipping an equation keeps both sides; no other rule rewrites the '=' node itself. A 'differ' "
         "verdict carries an assignment at which exactly one of the two equations holds (computed on the term "
         "algebra) or the unit whose non-zero-ness is not established. Rewrites strictly inside one side are covered "
-        "by C01.R1 + C07 (congruence). Not decided: numeric truth of an equation; chains longer than the bound; "
+        "by C01.R1 + C07 (congruence); 'holds' is exact equality of the sides (EqualExpression.operate returns only when the "
+        "sides are equal). Not decided: numeric truth of an equation; chains longer than the bound; "
         "chained equations a = b = c.")
     chk.assumptions = ["W: '=' occurs only at the root", f"ancestor chain bound {depth}", "clone_from_root summary (C13.R4)"]
     recs = rule_records(chk)
     run_cases(chk, recs)
+    # what it means for an equation to hold: Equal.operate accepts exactly equal sides (the clause of C05, under this
+    # property's rule id) - the solution-set comparison above is about exactly that relation
+    from .c05 import run_operate
+    chk.rule("C02.R4", "an equation holds exactly when its two sides are equal (EqualExpression.operate)", minimum=2)
+    run_operate(chk, prog, only=("EqualExpression",), r1="C02.R4", r6=None)
     chk.exhaustive = True
     chk.max_undecided = 0
